@@ -168,6 +168,20 @@ func (e *btEnv) violation(what string) {
 	e.st.Violations = append(e.st.Violations, hx.Violation{
 		Property: "C17", Stream: e.st.Stream, Seed: e.cfg.Seed, Program: e.prog, Step: e.step, What: what, Trace: e.w.Path,
 	})
+	// a slab whose reported size is not the size of its encoding also breaks C06 (sizes of EVERY
+	// slab of every reachable container, bulk-built ones included), a structurally invalid result C05
+	var also []string
+	if strings.Contains(what, "header size") || strings.Contains(what, "Serialization") {
+		also = append(also, "C06")
+	}
+	if strings.Contains(what, "VerifyArray") || strings.Contains(what, "VerifyMap") {
+		also = append(also, "C05")
+	}
+	for _, p := range also {
+		e.st.Violations = append(e.st.Violations, hx.Violation{
+			Property: p, Stream: e.st.Stream, Seed: e.cfg.Seed, Program: e.prog, Step: e.step, What: what, Trace: e.w.Path,
+		})
+	}
 }
 
 // fresh starts a scenario: new ledger and storage, model state reset.
